@@ -35,15 +35,15 @@ def R(what):
 
 PROPS = {
     "C01": {"level": "exploration", "trigger": ["c01.mutations"],
-        "batches": [sim("benign", 150, 3000), sim("faulty", 150, 4000), sim("lifecycle", 100, 2000), sim("multiterm", 100, 2000), sim("priorace", 100, 2000), sim("c06", 144, 2880), sim("leftover", 60, 600), sim("yieldstop", 190, 570), sim("holdrace", 350, 3500), sim("twocause", 126, 126)],
+        "batches": [sim("benign", 150, 3000), sim("faulty", 150, 4000), sim("lifecycle", 100, 2000), sim("multiterm", 100, 2000), sim("priorace", 100, 2000), sim("c06", 144, 2880), sim("leftover", 60, 600), sim("yieldstop", 190, 570), sim("connection", 200, 3000), sim("holdrace", 350, 3500), sim("twocause", 126, 126), sim("outage", 24, 240)],
         "min": {"quick": {"c01.refreshes": 200, "c01.takeovers": 20, "c01.shutdown_deletes": 20, "c01.expiries": 20}},
         "rule": R("oracle over the complete caller-tagged mutation log of the reference store: every successful Create/Update/Delete must fit creation / refresh / legitimate takeover / owner's shutdown delete"), "assumptions": SIM_ASSUME},
     "C02": {"level": "exploration", "trigger": ["c02.flag_up"],
-        "batches": [sim("benign", 500, 12000), sim("yieldstop", 190, 570), sim("leftover", 150, 1500), sim("holdrace", 350, 3500), sim("twoinflight", 24, 240)],
+        "batches": [sim("benign", 500, 12000), sim("yieldstop", 190, 570), sim("leftover", 150, 1500), sim("holdrace", 350, 3500), sim("twoinflight", 24, 240), sim("outage", 24, 240)],
         "min": {"quick": {"c02.terms": 300, "c02.stops": 100, "c02.stops_inflight": 30}},
         "rule": R("benign class: 1-5 instances x 1-2 groups, H/TTL grid, latency < H/2, watch delay/drop/dup, random Start/Stop/StopWithContext/restart; oracle: instant cross-read of every instance's IsLeader() and the live record inside Metrics.SetIsLeader and at every record change/expiry"), "assumptions": SIM_ASSUME},
     "C03": {"level": "fault_enumeration", "trigger": ["c03.a_obligations", "c03.b_obligations"],
-        "batches": [sim("c03grid", 270, 4860), sim("multiterm", 60, 1500), sim("faulty", 60, 1500), sim("holdrace", 350, 3500), sim("twocause", 126, 126)],
+        "batches": [sim("c03grid", 360, 6480), sim("multiterm", 60, 1500), sim("faulty", 60, 1500), sim("holdrace", 350, 3500), sim("twocause", 126, 126), sim("outage", 24, 240)],
         "min": {"quick": {"c03.a_obligations": 40, "c03.b_obligations": 40}},
         "rule": R("c03grid enumerates fault kind (9) x first faulty heartbeat attempt (1..6) x H (5), remaining dimensions (TTL ratio, latency, had-watch-loop) drawn per case; oracle: virtual-time bounds H+2To after replacement/deletion/expiry and 3H+3To after the last successful refresh, at most 3 failing attempts"), "assumptions": SIM_ASSUME},
     "C04": {"level": "exploration", "trigger": ["c04.calls"],
@@ -75,7 +75,7 @@ PROPS = {
         "min": {"quick": {"c10.takeovers": 100, "c10.prompt_obligations": 50}},
         "rule": R("priority class enumerates all assignments of priority {1,2,3} x takeover flag x start order for 2 instances (108) and 3 instances (1512) (thorough: all, exhaustive); priorace adds takeover racing the incumbent's heartbeat; oracle: safety over every replacement of a live record, promptness 3H and final owner/stability in the fault-free class"), "assumptions": SIM_ASSUME},
     "C11": {"level": "fault_enumeration", "trigger": ["c11.notifications"],
-        "batches": [sim("connection", 400, 6000), sim("multiterm", 60, 1000), sim("slowsink", 57, 570), sim("holdrace", 350, 3500)],
+        "batches": [sim("connection", 400, 6000), sim("multiterm", 60, 1000), sim("slowsink", 57, 570), sim("holdrace", 350, 3500), sim("outage", 24, 240)],
         "min": {"quick": {"c11.grace_obligations": 50, "c11.verifications": 50}},
         "rule": R("connection class: notification words over {disconnect, reconnect, closed} up to length 6 with gaps on a lattice around 100ms and the grace period, 4 grace settings, store outages and ownership changes during the outage, stops; notifications are injected through the handlers the monitor registers on an unconnected nats.Conn; oracle: grace timing, verification iff, deadlock watchdog"), "assumptions": SIM_ASSUME},
     "C12": {"level": "exploration", "trigger": ["c12.checks"],
